@@ -63,8 +63,64 @@ def dimsrange(c):
     return ["ok", out]
 
 
+def history(c):
+    """A sequence of calls in this one interpreter, including generators of spinn5_eth_coords that are
+    abandoned or consumed piecemeal.  One result per operation; nothing is judged here."""
+    gens = {}
+    res = []
+    for op in c["ops"]:
+        kind, a = op[0], op[1:]
+        try:
+            if kind == "eth_full":
+                res.append(["ok", [plain(e) for e in geometry.spinn5_eth_coords(*a)]])
+            elif kind == "eth_take":                       # next() n times, then the generator is dropped
+                g = geometry.spinn5_eth_coords(*a[:4])
+                got = []
+                for _ in range(a[4]):
+                    try:
+                        got.append(plain(next(g)))
+                    except StopIteration:
+                        break
+                res.append(["ok", got])
+            elif kind == "eth_in":                         # membership test stops at the first match
+                res.append(["ok", (a[4], a[5]) in geometry.spinn5_eth_coords(*a[:4])])
+            elif kind == "eth_break":                      # search loop left with break
+                got = []
+                for e in geometry.spinn5_eth_coords(*a[:4]):
+                    got.append(plain(e))
+                    if len(got) >= a[4]:
+                        break
+                res.append(["ok", got])
+            elif kind == "eth_open":                       # a generator kept alive under a name
+                gens[a[0]] = geometry.spinn5_eth_coords(*a[1:5])
+                res.append(["ok", None])
+            elif kind == "eth_next":
+                got = []
+                for _ in range(a[1]):
+                    try:
+                        got.append(plain(next(gens[a[0]])))
+                    except StopIteration:
+                        break
+                res.append(["ok", got])
+            elif kind == "eth_drain":
+                res.append(["ok", [plain(e) for e in gens.pop(a[0])]])
+            elif kind in ("local", "chip", "fpga"):
+                res.append(point(dict(f=kind, args=a)))
+            elif kind == "dims":
+                res.append(["ok", plain(geometry.standard_system_dimensions(a[0]))])
+            else:
+                raise KeyError(kind)
+        except ValueError:
+            res.append(["fail", 0])
+        except Exception as e:
+            res.append(["other", type(e).__name__])
+    return ["ok", res]
+
+
 def run_case(c):
     try:
+        if c["k"] == "history":
+            return history(c)
         if c["k"] == "dimsrange":
             return dimsrange(c)
         if c["k"] == "machine":
